@@ -21,11 +21,11 @@ ASSUMPTIONS = ["moderate logits (|x| <= 8) for the sigmoid/BCE and log(softmax) 
 
 def run_identity(name, case, rec, lhs, rhs, loose=False, nt=True):
     dt = np.dtype(case["dtype"])
-    arrs = [gen.arr(x["v"], x["shape"], dt) for x in case["xs"]]
+    arrs = [ops._layout(gen.arr(x["v"], x["shape"], dt), case.get("layout", "C")) for x in case["xs"]]
     ctx = f"identity={name} shapes={[x['shape'] for x in case['xs']]} args={case['args']} dtype={case['dtype']}"
     sides = []
     for fn in (lhs, rhs):
-        leaves = [Tensor(a.copy(), requires_grad=True) for a in arrs]
+        leaves = [Tensor(ops._layout(np.array(a), case.get("layout", "C")), requires_grad=True) for a in arrs]
         try:
             out = fn(leaves, case["args"])
         except Exception as e:  # noqa: BLE001
@@ -93,6 +93,7 @@ def common(draw, body):
     c = draw(body)
     c["dtype"] = draw(gen.DTYPES)
     c["g"] = draw(gen.upstream())
+    c["layout"] = draw(st.sampled_from(["C", "C", "C", "F", "strided"]))
     return c
 
 
